@@ -2,7 +2,7 @@
 from facts import AnalysisBroken
 from model import (dstr, strip, fact_holds, mentions_field, mentions_call, mentions_var,
                    mentions_enum, const_value, walk)
-from rules import (guarded, calls_to, field_writes, who_may_call, must_pass, dominated_by,
+from rules import (absent_from, guarded, calls_to, field_writes, who_may_call, must_pass, dominated_by,
                    full_range, loops_over, every_iteration_passes, basename, error_discipline,
                    origins, reject_if, skip_conditions_exact, is_enum, is_field, is_var,
                    reached_only_via, canon_before_intern)
@@ -341,7 +341,7 @@ def run(ctx):
     for l in ls:
         skip_conditions_exact(
             ctx, 'C01.O3', nf, l, lambda x: x['k'] == 'call' and x.get('name') == 'Plan::EdgeMaybeReady',
-            [(lambda a: 'Plan::want_.end()' in dstr(a), True)],
+            absent_from('Plan::want_'),
             'an out-edge is skipped only if it is not in the plan', 'NodeFinished:extra-skip')
     ctx.floor('C01.O3', 6)
 
